@@ -268,36 +268,40 @@ void operator&=(std::vector<T>& v1, const C& c)
 template<class T, class C>
 void operator+=(std::vector<T>& v1, const C& c)
 {
+  const C cc = c; // c may be an element of v1 (as in v -= v[k])
   for (auto& x : v1)
   {
-    x += c;
+    x += cc;
   }
 }
 
 template<class T, class C>
 void operator-=(std::vector<T>& v1, const C& c)
 {
+  const C cc = c; // c may be an element of v1 (as in v -= v[k])
   for (auto& x : v1)
   {
-    x -= c;
+    x -= cc;
   }
 }
 
 template<class T, class C>
 void operator*=(std::vector<T>& v1, const C& c)
 {
-  for (auto& x :v1)
+  const C cc = c; // c may be an element of v1 (as in v -= v[k])
+  for (auto& x : v1)
   {
-    x *= c;
+    x *= cc;
   }
 }
 
 template<class T, class C>
 void operator/=(std::vector<T>& v1, const C& c)
 {
+  const C cc = c; // c may be an element of v1 (as in v -= v[k])
   for (auto& x : v1)
   {
-    x /= c;
+    x /= cc;
   }
 }
 
